@@ -87,7 +87,7 @@ def surface_position(
     lons = [(lon + 180) % 360 - 180 for lon in lons]
 
     # the closest solution to receiver is the correct one
-    dls = [abs(lon_ref - lon) for lon in lons]
+    dls = [abs((lon_ref - lon + 180) % 360 - 180) for lon in lons]
     imin = min(range(4), key=dls.__getitem__)
     lon = lons[imin]
 
